@@ -2,7 +2,8 @@
 
 Proof side: coq/Props/C20.v (model coq/Sys/Server.v, facts regenerated from nbdimeserver.py by tools/gen/gen_server.py).
 Tie (T1): request sequences are played against the REAL main_server / handlers (harness/c20_runner.py, Tornado on an
-  ephemeral port, stubbed jupyter_server/jinja2) and against the model (coq/Sys/ServerRun.v under coqc, library tables
+  ephemeral port, stubbed jupyter_server/jinja2; some sessions are started by main(argv) of the real console entry
+  modules, c20_gen.gen_entry_scenario) and against the model (coq/Sys/ServerRun.v under coqc, library tables
   recorded from nbformat / nbdime / os.path) and compared step by step: status, body, directory contents, stop, exit code.
 Property on the implementation (T2): evaluated directly on what the real server did, with oracles that share no code
   with nbdime's web layer (pyspec.spec_patch, nbformat, directory snapshots, the library called in a fresh process)."""
@@ -19,6 +20,7 @@ ASSUME = [
     'nbdime.diff_notebooks / decide_notebook_merge are Section variables (any behaviour); diff_endpoint_patches assumes the library round trip patch(a, diff(a,b)) = b, which is property C01 and is re-checked here on every diff response with the independent patcher pyspec.spec_patch',
     'network access is disabled in the rig (requests.get raises ConnectionError): URL arguments are always unreadable',
     'int(s, 10) is modelled on [+-]?[0-9]+ only; the generator stays inside that domain',
+    'sessions started through a console entry point (main(argv) of the real module): webbrowser.get is made to fail so no browser is opened, and nbdimeserver.init_app is wrapped only to learn the port; the kind of session a command line asks for (plain / diff web / merge web answer for the request, diff tool / merge tool for the command line; --out, -w, --base-url, --persist) is the harness\'s reading of the documented commands; git-revision arguments of nbdiff-web are outside the explored space',
     'file-like difftool arguments (git difftool passing open files) are not modelled; processes run as root, so permission failures of open() are outside the explored space',
 ]
 F12_SIG = 'store-truncates-output-before-serialising'
@@ -653,6 +655,10 @@ def run(tier, seed):
     r = chk.rng
     nscn = 160 if tier == 'quick' else 1500
     tasks = [c20_gen.f12_scenario()] + [c20_gen.gen_history_scenario(r) if k % 8 == 7 else c20_gen.gen_scenario(r) for k in range(nscn)]
+    # sessions started through the real console entry points (nbmerge-web, nbdiff-web, nbmergetool, nbdifftool, the plain server),
+    # every one asked about notebooks other than / mixed with those of its command line and with malformed bodies
+    nentry = 24 if tier == 'quick' else 240
+    tasks += [c20_gen.gen_entry_scenario(r, k) for k in range(nentry)]
     pm = PrivateModel()
     T = Tables()
     nn = core.run_impl([{'op': 'newnb'}], script='c20_runner.py')[0]
@@ -759,8 +765,8 @@ def run(tier, seed):
     chk.notes.append('phase seconds: ' + ', '.join('%s=%.1f' % kv for kv in tm.items()))
     chk.cov.update({
         'evaluations': steps, 'distinct_nontrivial': len(nontrivial),
-        'rule': 'HTTP requests played one after the other against the real main_server in generated start-up modes (plain, diff web, diff tool, merge web, merge tool; output file relative/absolute/absent/empty/unwritable; closable or not; base_url /, /nb/, /a/b, /x) over generated notebook files; a request is non-trivial when it is a POST routed to one of the four API handlers; distinct by (start-up parameters, request, directory contents before)',
-        'input_distribution': hist, 'sessions': len(scns), 'traces_validated_against_impl': t1, 'model_impl_mismatches': mism,
+        'rule': 'HTTP requests played one after the other against the real main_server in generated start-up modes (plain, diff web, diff tool, merge web, merge tool; output file relative/absolute/absent/empty/unwritable; closable or not; base_url /, /nb/, /a/b, /x) over generated notebook files, and against servers started by main(argv) of the five real console entry modules (nbdime.webapp.nbdimeserver/nbdiffweb/nbmergeweb/nbdifftool/nbmergetool) with generated command lines, each asked what its page posts, then about other and mixed notebooks and with malformed bodies; a request is non-trivial when it is a POST routed to one of the four API handlers; distinct by (start-up parameters, request, directory contents before)',
+        'input_distribution': hist, 'sessions': len(scns), 'sessions_started_by_console_entry_point': sum(1 for sc in scns if sc.start.get('entry')), 'traces_validated_against_impl': t1, 'model_impl_mismatches': mism,
         'sessions_not_expressible_in_model': inexpressible, 'single_request_fresh_process_replays': nfresh,
         'library_diff_calls_fresh_process': len(T.ldiff), 'library_merge_calls_fresh_process': len(T.lmerge), 'exhaustive': False,
     })
